@@ -12,6 +12,7 @@
     pred mergeside how=… side=… avail=… and=… dep=…   -> 1|0       (Merge._filter_passthrough_available)
     pred mergepush side=… lcoll=… rcoll=…      -> LR bits          (Merge._simplify_up side selection)
     pred pushavail nfilters=… nparents=… inpred=…     -> 1|0       (is_filter_pushdown_available)
+    pred rebuild ops=o0,self,o2                -> new,self,o2      (Filter._simplify_up: type(parent)(new, *operands[1:]))
 
   sexpr: (and x y) (or x y) (not x) or an atom token.  Atom tokens: a<i> (abstract);
   c<col>:<op>:<const>, i<col>:<c,c,…> (isin; I = not in), n<col> (isna; N = notna), k<col>:<op>:<col2>.
@@ -209,6 +210,10 @@ def handle : List String → Option String
           let s := mergePushSides pc l r
           bool01 s.1 ++ bool01 s.2
       | _, _, _ => "BAD params")
+  | "pred" :: "rebuild" :: rest =>
+      some (match get (kvs rest) "ops" with
+      | some ops => joinWith "," (rebuildFirst (parseStrs ops) "new")
+      | none => "BAD params")
   | "pred" :: "pushavail" :: rest =>
       let kv := kvs rest
       some (match getNat kv "nfilters", getNat kv "nparents", getBool kv "inpred" with
